@@ -67,6 +67,11 @@ def check(chk):
         _sort_state(chk, cls)
     _post_compute_callers(chk)
     _kernel_consistent(chk)
+    # the cross-set rotator does to the loadings / scores of one field what it does to those of the other
+    from .fields import field_symmetry
+    rot = pm.cls("xeofs.cross.cpcca_rotator.CPCCARotator")
+    nsym = field_symmetry(chk, "PAIR.fields.symmetric", [m for m in rot.methods.values() if not m.name.startswith("__")])
+    chk.require(nsym >= 2, f"PAIR.fields.symmetric: only {nsym} two-field rotator functions compared")
     chk.floor("PAIR.scores", 4)
     chk.floor("PAIR.helper", 2)
     chk.floor("SORT.key", 2)
